@@ -21,11 +21,11 @@ theorem xmlNodes_zero (c : XCfg) (p : Parent) (ns : List Node) (st : XSt) : xmlN
 
 theorem xmlNode_elt (c : XCfg) (p : Parent) (f : Nat) (name attrs kids) (st : XSt) :
     xmlNode c p (f + 1) (.elt name attrs kids) st =
-      (match xmlNodes c (.elt name) f kids (xmlOpen c p name attrs kids st) with
+      (match xmlNodes c (childScope p name) f kids (xmlOpen c p name attrs kids st) with
        | .ok st1 => .ok { (if kids.isEmpty then st1 else xmlEndTag c name kids st1) with curTag := none }
        | .error e => .error e) := by
   simp only [xmlNode, xmlOpen]
-  cases xmlNodes c (.elt name) f kids _ <;> rfl
+  cases xmlNodes c (childScope p name) f kids _ <;> rfl
 
 theorem xmlNode_text (c : XCfg) (p : Parent) (f : Nat) (s : Bytes) (st : XSt) :
     xmlNode c p (f + 1) (.text s) st =
@@ -37,11 +37,11 @@ theorem xmlNode_text (c : XCfg) (p : Parent) (f : Nat) (s : Bytes) (st : XSt) :
 
 theorem xmlNode_cdata (c : XCfg) (p : Parent) (f : Nat) (kids : List Node) (st : XSt) :
     xmlNode c p (f + 1) (.cdata kids) st =
-      (match xmlNodes c .other f kids { st with inCdata := true, out := st.out ++ b!"<![CDATA[" } with
+      (match xmlNodes c p f kids { st with inCdata := true, out := st.out ++ b!"<![CDATA[" } with
        | .ok st1 => .ok { st1 with inCdata := false, out := st1.out ++ b!"]]>", curTag := none }
        | .error e => .error e) := by
   simp only [xmlNode]
-  cases xmlNodes c .other f kids _ <;> rfl
+  cases xmlNodes c p f kids _ <;> rfl
 
 theorem xmlNode_tree_none (c : XCfg) (p : Parent) (f : Nat) (cs : Nat) (root : Option Node) (st : XSt) :
     xmlNode c p (f + 1) (.tree none cs root) st = .error (.code 12) := by
@@ -154,8 +154,8 @@ theorem xml_fuel_enough (f : Nat) :
       | elt name attrs kids =>
         simp only [needNode] at hf
         rw [xmlNode_elt]
-        have := ih.2 c (.elt name) kids (xmlOpen c p name attrs kids st) (by omega)
-        cases hk : xmlNodes c (.elt name) f kids (xmlOpen c p name attrs kids st) with
+        have := ih.2 c (childScope p name) kids (xmlOpen c p name attrs kids st) (by omega)
+        cases hk : xmlNodes c (childScope p name) f kids (xmlOpen c p name attrs kids st) with
         | error e => rw [hk] at this; intro h; cases h; exact this rfl
         | ok st1 => intro h; cases h
       | text s =>
@@ -167,8 +167,8 @@ theorem xml_fuel_enough (f : Nat) :
       | cdata kids =>
         simp only [needNode] at hf
         rw [xmlNode_cdata]
-        have := ih.2 c .other kids { st with inCdata := true, out := st.out ++ b!"<![CDATA[" } (by omega)
-        cases hk : xmlNodes c .other f kids { st with inCdata := true, out := st.out ++ b!"<![CDATA[" } with
+        have := ih.2 c p kids { st with inCdata := true, out := st.out ++ b!"<![CDATA[" } (by omega)
+        cases hk : xmlNodes c p f kids { st with inCdata := true, out := st.out ++ b!"<![CDATA[" } with
         | error e => rw [hk] at this; intro h; cases h; exact this rfl
         | ok st1 => intro h; cases h
       | tree l cs r =>
@@ -269,7 +269,7 @@ theorem xml_sh (f : Nat) :
       cases n with
       | elt name attrs kids =>
         rw [xmlNode_elt, xmlNode_elt, xmlOpen_sh, ih.2]
-        cases xmlNodes c (.elt name) f kids (xmlOpen c p name attrs kids st) with
+        cases xmlNodes c (childScope p name) f kids (xmlOpen c p name attrs kids st) with
         | error e => rfl
         | ok st1 =>
           simp only [shE]
@@ -286,7 +286,7 @@ theorem xml_sh (f : Nat) :
         have : ({ sh o st with inCdata := true, out := (sh o st).out ++ b!"<![CDATA[" } : XSt)
             = sh o { st with inCdata := true, out := st.out ++ b!"<![CDATA[" } := by simp [sh, List.append_assoc]
         rw [this, ih.2]
-        cases xmlNodes c .other f kids { st with inCdata := true, out := st.out ++ b!"<![CDATA[" } with
+        cases xmlNodes c p f kids { st with inCdata := true, out := st.out ++ b!"<![CDATA[" } with
         | error e => rfl
         | ok st1 => simp [shE, sh, List.append_assoc]
       | tree l cs r =>
@@ -358,7 +358,7 @@ theorem xml_inCdata (f : Nat) :
       cases n with
       | elt name attrs kids =>
         rw [xmlNode_elt] at h
-        cases hk : xmlNodes c (.elt name) f kids (xmlOpen c p name attrs kids st) with
+        cases hk : xmlNodes c (childScope p name) f kids (xmlOpen c p name attrs kids st) with
         | error e => rw [hk] at h; cases h
         | ok st1 =>
           rw [hk] at h
@@ -374,7 +374,7 @@ theorem xml_inCdata (f : Nat) :
         | ok st1 => rw [hk] at h; cases h; simp only; rw [xmlText_inCdata c s st st1 hk]; exact hst
       | cdata kids =>
         rw [xmlNode_cdata] at h
-        cases hk : xmlNodes c .other f kids { st with inCdata := true, out := st.out ++ b!"<![CDATA[" } with
+        cases hk : xmlNodes c p f kids { st with inCdata := true, out := st.out ++ b!"<![CDATA[" } with
         | error e => rw [hk] at h; cases h
         | ok st1 => rw [hk] at h; cases h; rfl
       | tree l cs r =>
